@@ -121,6 +121,9 @@ pub struct BBook {
     pub sst_total_refs: Option<u32>,
     /// relationship ids with a non-ASCII letter (an xsd:ID may contain any letter) instead of rIdN
     pub rel_ids_non_ascii: bool,
+    /// a supporting link to an external workbook (BrtSupBookSrc) recorded before BrtSupSelf: the XTI entries of this workbook's
+    /// own sheets then carry supporting-link index 1
+    pub external_link_first: bool,
 }
 
 pub fn row_hdr(row: u32) -> Vec<u8> {
@@ -209,9 +212,11 @@ pub fn workbook_bin(b: &BBook) -> Vec<u8> {
     o.extend(rec(0x90, &[]));
     if let Some(x) = &b.extern_sheets {
         o.extend(rec(0x161, &[]));
+        if b.external_link_first { o.extend(rec(0x163, &ws("rIdExt1"))); } // BrtSupBookSrc
         o.extend(rec(0x165, &[]));
+        let own: u32 = if b.external_link_first { 1 } else { 0 };
         let mut d = (x.len() as u32).to_le_bytes().to_vec();
-        for (a, z) in x { d.extend(0u32.to_le_bytes()); d.extend(a.to_le_bytes()); d.extend(z.to_le_bytes()); }
+        for (a, z) in x { d.extend(own.to_le_bytes()); d.extend(a.to_le_bytes()); d.extend(z.to_le_bytes()); }
         o.extend(rec(0x16A, &d));
         o.extend(rec(0x162, &[]));
     }
@@ -274,6 +279,14 @@ pub fn write(b: &BBook, method: Method) -> Vec<u8> {
     }
     rels.push_str(&format!("<Relationship Id=\"rId{}\" Type=\"http://schemas.openxmlformats.org/officeDocument/2006/relationships/styles\" Target=\"styles.bin\"/>", b.sheets.len() + 1));
     rels.push_str(&format!("<Relationship Id=\"rId{}\" Type=\"http://schemas.openxmlformats.org/officeDocument/2006/relationships/sharedStrings\" Target=\"sharedStrings.bin\"/>", b.sheets.len() + 2));
+    if b.external_link_first && b.extern_sheets.is_some() {
+        rels.push_str("<Relationship Id=\"rIdExt1\" Type=\"http://schemas.openxmlformats.org/officeDocument/2006/relationships/externalLink\" Target=\"externalLinks/externalLink1.bin\"/>");
+        // BrtBeginSupBook (external workbook, relationship rId1 of the link part) ... BrtEndSupBook
+        let mut p = rec(0x168, &{ let mut d = 0u16.to_le_bytes().to_vec(); d.extend(ws("rId1")); d.extend(ws("")); d });
+        p.extend(rec(0x169, &[]));
+        z.add("xl/externalLinks/externalLink1.bin", &p, method);
+        z.add("xl/externalLinks/_rels/externalLink1.bin.rels", format!("<?xml version=\"1.0\" encoding=\"UTF-8\" standalone=\"yes\"?>\n<Relationships xmlns=\"{NS_PKG_REL}\"><Relationship Id=\"rId1\" Type=\"http://schemas.openxmlformats.org/officeDocument/2006/relationships/externalLinkPath\" Target=\"other.xlsb\" TargetMode=\"External\"/></Relationships>").as_bytes(), method);
+    }
     rels.push_str("</Relationships>");
     z.add("xl/_rels/workbook.bin.rels", rels.as_bytes(), method);
     z.add("xl/styles.bin", &styles_bin(b), method);
